@@ -203,3 +203,38 @@ class MatrixBitsSetter(Contract):
         for (r, c) in ((1, 1), (2, 2), (2, 3)):
             for bits, seq in ((4, (2,)), (4, (6,)), (5, (2, 6)), (6, (3, 8, 2, 7)), (3, (3,)), (8, (1, 8))):
                 yield ('%dx%d bits=%d then %s' % (r, c, bits, list(seq)), mk(r, c, bits, seq))
+
+
+@register
+class MatrixToWire(Contract):
+    """m.to_wirevector() for a matrix whose elements all have the element width (the state the constructor
+    establishes): a wire of bits*rows*columns bits, element (i, j) in the field
+    [k*bits, (k+1)*bits) with k = (rows-1-i)*columns + (columns-1-j) -- the inverse of the constructor's layout.
+    Matrix.__getitem__ (index normalisation) is executed from the real source on the concrete indices."""
+    module, qualname, props = 'pyrtl.rtllib.matrix', 'Matrix.to_wirevector', ('C19',)
+    hooks = property(lambda self: W.hooks())
+
+    def cases(self):
+        return ['1x1', '1x2', '2x1', '2x2', '1x3']
+
+    def setup(self, I, case):
+        import z3
+        from pyvc.engine import SObj, term
+        r, c = [int(x) for x in case.split('x')]
+        bits = I.st.fresh_int('bits')
+        elems = [[W.input_wire(I, 'e%d%d' % (i, j)) for j in range(c)] for i in range(r)]
+        for row in elems:
+            for e in row:
+                I.st.assume(W.bw_of(e) == bits.t)
+        m = SObj('Matrix', dict(rows=r, columns=c, _matrix=[list(row) for row in elems], _bits=bits, signed=False,
+                                max_bits=None))
+        return NS(self=m, args=[], r=r, c=c, bits=bits.t, elems=elems)
+
+    def post(self, ns):
+        den = 0
+        for i in range(ns.r):
+            for j in range(ns.c):
+                k = (ns.r - 1 - i) * ns.c + (ns.c - 1 - j)
+                den = den + W.den_of(ns.elems[i][j]) * H.pow2(k * ns.bits)
+        from contracts.wire import _shape
+        return _shape(ns, ns.bits * (ns.r * ns.c), den)
